@@ -221,6 +221,10 @@ func (p *ParagraphReader) Next() (*Paragraph, error) {
 		 */
 
 		if strings.HasPrefix(line, " ") || strings.HasPrefix(line, "\t") {
+			if len(paragraph.Order) == 0 {
+				/* nothing to continue: the paragraph has no field yet */
+				return nil, fmt.Errorf("Bad line: '%s' continues a field, but no field precedes it", line)
+			}
 			/* This is a continuation line; so we're going to go ahead and
 			 * clean it up, and throw it into the list. We're going to remove
 			 * the first character (which we now know is whitespace), and if
